@@ -351,7 +351,13 @@ class SED(object):
         # interpolate_variable) or quantities; work in AU throughout
         sed_apertures = self.apertures.to(u.au).value
         if isinstance(apertures, u.Quantity):
-            apertures = apertures.to(u.au).value
+            # Check the lower bound in the units of the request: converting
+            # e.g. self.apertures.min().to(u.pc) back to AU can round just
+            # below the smallest aperture, which is not a request too small
+            if np.any(apertures < self.apertures.min()):
+                raise Exception("Aperture(s) requested too small")
+            apertures = np.clip(apertures.to(u.au).value,
+                                sed_apertures.min(), sed_apertures.max())
 
         # Create interpolating function
         flux_interp = interp1d(sed_apertures, self.flux.swapaxes(0, 1))
